@@ -355,7 +355,7 @@ extern (*ExprBridge).PreprocessBacktickIdentifiers
   option pure
 
 // ---- expression bridge (expr-lang behind it): assumed contracts
-extern GetExprBridge
+func GetExprBridge
   props C04 C20 C05 C06 C13
   option pure
 
@@ -1078,35 +1078,47 @@ func (*CaseWhenFunction).Execute
   requires validated-arguments: f != nil && len(args) >= 2
   modifies *
 
+// NULL test behind is_null / is_not_null (reflection: nil and typed nil; bounded stand-in is_null_values)
+extern isNilValue
+  props C06 C13 C05
+  option pure
+  ensures untyped-nil-is-null: v == nil ==> result
+  ensures text-numbers-and-booleans-are-values: hasType(v, string) || hasType(v, float64) || hasType(v, int) || hasType(v, int64) || hasType(v, bool) ==> !result
+
 func (*IsNullFunction).Execute
-  props C06
+  props C06 C13 C05
   option safety
   requires validated-arguments: f != nil && len(args) >= 1 && len(args) <= 1
   modifies *
+  ensures is-null-answers-the-null-test-of-its-argument: result1 == nil && result0 == boxof(isNilValue(args[0]), bool)
 
 func (*IsNotNullFunction).Execute
-  props C06
+  props C06 C13 C05
   option safety
   requires validated-arguments: f != nil && len(args) >= 1 && len(args) <= 1
   modifies *
+  ensures is-not-null-answers-the-opposite-of-the-null-test: result1 == nil && result0 == boxof(!isNilValue(args[0]), bool)
 
 func (*IsNumericFunction).Execute
   props C06
   option safety
   requires validated-arguments: f != nil && len(args) >= 1 && len(args) <= 1
   modifies *
+  ensures null-is-no-number: args[0] == nil ==> result1 == nil && result0 == boxof(false, bool)
 
 func (*IsStringFunction).Execute
   props C06
   option safety
   requires validated-arguments: f != nil && len(args) >= 1 && len(args) <= 1
   modifies *
+  ensures text-and-nothing-else: result1 == nil && result0 == boxof(args[0] != nil && hasType(args[0], string), bool)
 
 func (*IsBoolFunction).Execute
   props C06
   option safety
   requires validated-arguments: f != nil && len(args) >= 1 && len(args) <= 1
   modifies *
+  ensures booleans-and-nothing-else: result1 == nil && result0 == boxof(args[0] != nil && hasType(args[0], bool), bool)
 
 func (*IsArrayFunction).Execute
   props C06
